@@ -1061,6 +1061,8 @@ class XsdElement(XsdComponent, ParticleMixin,
                 elem.text = self.fixed
             elif self.default is not None and context.use_defaults:
                 elem.text = self.default
+            elif not xsd_type.is_valid(''):
+                errors.append("missing value: the empty string is not valid for the element's type")
 
         elif isinstance(xsd_type.content, XsdSimpleType):
             if xsd_type.content.max_length == 0:
@@ -1077,6 +1079,8 @@ class XsdElement(XsdComponent, ParticleMixin,
                 elem.text = self.fixed
             elif self.default is not None and context.use_defaults:
                 elem.text = self.default
+            elif not xsd_type.content.is_valid(''):
+                errors.append("missing value: the empty string is not valid for the element's type")
 
         else:
             context.level += 1
